@@ -16,6 +16,17 @@ Event.set/clear/wait, select/poll/epoll, ctrl-pipe write/read):
       scheduler's end-of-run observation, both evaluated by the Lean driver.
 
 A case is {'mode', 'plan', 'dev'}: waiter kind, events per firer, schedule deviations.
+
+Directed family (both tiers, `directed_family`): a case additionally carries
+'scn' = {'kind', 'occ', 'point', 'k'}.  The LOOP thread itself appends to the queue without the lock
+(kind 'tick': tick() firing generate_events, `occ`-th time; kind 'handler': a handler running in the loop
+thread fires an event of its own) and is parked before the `point`-th line event of that
+`_EventQueue.append` call (lines of private helpers it calls included); the last firer thread then fires
+`k` events, the loop thread completes its append, the firer fires the rest of its plan, everything is
+dispatched.  For such a case the schedule is derived from 'scn' (a state-dependent chooser; robust against
+line-number changes), 'dev' stays empty.  Oracle = the same `WakeSpec.onceFifo` on (fired, dispatched); cases of
+kind 'tick' are also replayed through the acceptor, cases of kind 'handler' are outside the modelled
+protocol (the model has no handler that fires) and are judged by the spec predicates only.
 """
 import collections
 import heapq
@@ -24,6 +35,7 @@ import os
 import select as real_select
 import sys
 import threading
+import types
 
 import vsched as S
 from framework import Infra
@@ -65,6 +77,7 @@ class Ctl:
         self.end_obs = None
         self.expect_hread = {}
         self.overrun = False
+        self.directed = None
 
     def me(self):
         return self.sched.me()
@@ -498,6 +511,10 @@ class Patched:
         P.os = FakeOS()
         self.codes = monitored_codes(M, H, P, E)
         self.tick_code = M.Manager.tick.__code__
+        real_eq = self.saved[2][2]
+        self.append_code = real_eq.append.__code__
+        # directed family only: the private helpers `append` calls are pre-emption points too
+        self.helper_codes = helper_codes(M, real_eq, self.append_code, self.codes)
         return self
 
     def __exit__(self, *a):
@@ -521,6 +538,108 @@ def monitored_codes(M, H, P, E):
     return res
 
 
+def helper_codes(M, cls, root, known, depth=3):
+    """code objects of the private helpers the code `root` (a method of `cls`) calls: the names it uses that
+    resolve to plain Python functions of the same class or of the same module, transitively"""
+    seen = {id(c) for c in known}
+    out = []
+    todo = [root]
+    for _ in range(depth):
+        nxt = []
+        for code in todo:
+            for name in code.co_names:
+                for f in (inspect.getattr_static(cls, name, None), M.__dict__.get(name)):
+                    f = getattr(f, '__func__', f)
+                    if isinstance(f, types.FunctionType) and f.__module__ == M.__name__ and id(f.__code__) not in seen:
+                        seen.add(id(f.__code__))
+                        out.append(f.__code__)
+                        nxt.append(f.__code__)
+        todo = nxt
+    return out
+
+
+# ---------------------------------------------------------------------------------------
+# directed schedules: the loop thread parked inside its own (un-locked) queue append
+# ---------------------------------------------------------------------------------------
+
+class Directed:
+    """state of one directed schedule; phases: 0 run by default until the loop thread reaches the park point,
+    1 the firer F fires k events, 2 the loop thread completes its append, 3 F fires the rest, 4 default"""
+
+    def __init__(self, scn, F):
+        self.kind = scn['kind']
+        self.occ = int(scn['occ'])
+        self.point = scn.get('point')       # None: probe (default schedule, only records the park points)
+        self.k = int(scn['k'])
+        self.F = F
+        self.phase = 0
+        self.seen_ev = None
+        self.count = 0
+        self.idx = -1
+        self.points = []
+        self.broken = None
+
+    def matches(self, evt):
+        if self.kind == 'tick':
+            return isinstance(evt, TGe)
+        return getattr(evt, 'name', None) == 'own'
+
+    def on_loop_line(self, px, code, line):
+        """called for every line event of the loop thread (before the scheduling point of that line)"""
+        fr = _append_frame(px, code)
+        if fr is None:
+            if self.phase == 2:
+                self.phase = 3          # the loop thread's append has returned
+            return
+        names = fr.f_code.co_varnames
+        evt = fr.f_locals.get(names[1]) if len(names) > 1 else None
+        if not self.matches(evt):
+            return
+        if evt is not self.seen_ev:
+            self.seen_ev = evt
+            self.count += 1
+        if self.count != self.occ:
+            return
+        self.idx += 1
+        self.points.append(f'{code.co_name}+{line - code.co_firstlineno}')
+        if self.phase == 0 and self.point is not None and self.idx == int(self.point):
+            self.phase = 1
+
+    def choose(self, c, step, default, enabled):
+        if self.phase in (0, 4):
+            return default
+        F = self.F
+        if self.phase == 1 and sum(1 for t, _i in c.fired if t == F) > self.k:
+            self.phase = 2              # F is at the first line of its (k+1)-th fire()
+        if self.phase == 3 and c.sched.th[F].state == 'done':
+            self.phase = 4
+            return default
+        want = 0 if self.phase == 2 else F
+        if want not in enabled:
+            if self.broken is None:
+                self.broken = f'phase {self.phase}: thread {want} not enabled ({enabled})'
+            return default
+        return want
+
+    def summary(self):
+        return {'reached': self.phase >= 3 and self.broken is None, 'phase': self.phase, 'broken': self.broken,
+                'points': self.points}
+
+
+def _append_frame(px, code):
+    """the frame of the `_EventQueue.append` call the current line event (of `code`) belongs to, or None"""
+    if code is not px.append_code and not any(code is h for h in px.helper_codes):
+        return None
+    f = sys._getframe(3)        # on_loop_line <- line_cb <- the monitored frame
+    for _ in range(5):
+        if f is None:
+            return None
+        if f.f_code is px.append_code:
+            return f
+        f = f.f_back
+    return None
+
+
 # ---------------------------------------------------------------------------------------
 # one run
 # ---------------------------------------------------------------------------------------
@@ -529,18 +648,27 @@ class RunResult:
     pass
 
 
-def run_one(px, mode, plan, dev=None, chooser=None, max_steps=6000):
+def run_one(px, mode, plan, dev=None, chooser=None, max_steps=6000, scn=None):
     """px: active Patched(); returns RunResult"""
     global CTL
     from circuits import BaseComponent, Event, handler
     import circuits.core.pollers as P
 
+    directed = Directed(scn, len(plan)) if scn else None
+    if directed is not None:
+        def chooser(step, default, enabled):
+            return directed.choose(c, step, default, enabled)
     sch = S.Sched(deviations={int(a): int(b) for a, b in (dev or [])}, chooser=chooser, max_steps=max_steps)
     c = Ctl(mode, sch)
+    c.directed = directed
     CTL = c
+    fires_own = directed is not None and directed.kind == 'handler'
 
     class ev(Event):
         pass
+
+    class own(Event):
+        """the loop thread's own event (directed family, kind 'handler')"""
 
     class Rec(BaseComponent):
         channel = '*'
@@ -548,6 +676,8 @@ def run_one(px, mode, plan, dev=None, chooser=None, max_steps=6000):
         @handler('ev')
         def _on_ev(self, t, i):
             c.dispatched.append((t, i))
+            if fires_own and (t, i) == (1, 0):
+                self.fire(own())
 
     m = px.TManager()
     c.m = m
@@ -599,6 +729,8 @@ def run_one(px, mode, plan, dev=None, chooser=None, max_steps=6000):
         if cc.sched.overrun and not cc.finale:
             cc.overrun = True
             quiescent()
+        if me == 0 and cc.directed is not None and not cc.finale:
+            cc.directed.on_loop_line(px, code, line)
         cc.sched.yield_point()
 
     def loop_body():
@@ -612,7 +744,7 @@ def run_one(px, mode, plan, dev=None, chooser=None, max_steps=6000):
         return body
 
     err = None
-    with S.LineHooks(px.codes, line_cb):
+    with S.LineHooks(px.codes + (px.helper_codes if directed is not None else []), line_cb):
         sch.spawn(loop_body)
         for t, k in enumerate(plan, start=1):
             sch.spawn(firer_body(t, k), pred=lambda: c.loop_in_tick, what='start')
@@ -640,6 +772,9 @@ def run_one(px, mode, plan, dev=None, chooser=None, max_steps=6000):
     r.switches = sch.switches
     r.thread_exc = [repr(t.exc) for t in sch.th if t.exc is not None]
     r.loop_finished = sch.th[0].state == 'done'
+    r.directed = directed.summary() if directed is not None else None
+    # kind 'handler' is outside the modelled protocol: judged by the spec predicates only
+    r.accept = not fires_own
     return r
 
 
@@ -653,7 +788,8 @@ def keys(l):
 
 def ops_of(r):
     ops = ['mode ' + ('fallback' if r.mode == 'fallback' else 'poller')]
-    ops += [lab for _t, lab, _s in r.labels]
+    if r.accept:
+        ops += [lab for _t, lab, _s in r.labels]
     ops.append('state')
     ops.append(f'spec-once {keys(r.fired)} | {keys(r.dispatched)}')
     eo = r.end_obs or {'blocked': False, 'pend': 0}
@@ -672,7 +808,23 @@ def classify_order(fired, dispatched):
         return 'dup'
     if any(cd.get(k, 0) < cf[k] for k in cf):
         return 'lost'
-    return 'reordered'
+    return 'fifo-violated'
+
+
+def describe_directed(case, r):
+    scn = case.get('scn')
+    if not scn or scn.get('point') is None or not r.directed:
+        return ''
+    F = len(case['plan'])
+    pts = r.directed['points']
+    at = pts[scn['point']] if scn['point'] < len(pts) else '?'
+    who = ('tick() firing generate_events (%s. time)' % scn['occ'] if scn['kind'] == 'tick'
+           else 'the handler of ev(1, 0) firing an event of its own')
+    return (f" [directed schedule{'' if r.directed['reached'] else ' (NOT reached: ' + str(r.directed['broken']) + ')'}: "
+            f"the loop thread, in {who}, is pre-empted inside its un-locked _EventQueue.append before line "
+            f"event #{scn['point']} ({at}, function+line offset); thread {F} fires {scn['k']} events; the loop thread "
+            f"completes its append; thread {F} fires {case['plan'][-1] - scn['k']} more; then everything is "
+            f"dispatched]")
 
 
 def judge(ctx, case, r, ans):
@@ -684,7 +836,7 @@ def judge(ctx, case, r, ans):
     # --- B: replay-validate the effect stream
     if not ans[0].startswith('ok'):
         raise Infra('driver refused mode op: ' + ans[0])
-    for i, (t, lab, st) in enumerate(r.labels):
+    for i, (t, lab, st) in enumerate(r.labels if r.accept else []):
         a = ans[1 + i]
         if not a.startswith('ok '):
             ok = False
@@ -703,7 +855,7 @@ def judge(ctx, case, r, ans):
                                 'fields': diff, 'impl': st, 'model': a})
             break
     eo = r.end_obs
-    if ok and eo is not None:
+    if ok and eo is not None and r.accept:
         ms = parse_state(ans[1 + len(r.labels)])
         if (ms.get('blocked') == '1') != bool(eo['blocked']):
             ok = False
@@ -722,7 +874,7 @@ def judge(ctx, case, r, ans):
         ctx.violate(case, f'loop-died({mode})', f'loop thread did not finish: {r.thread_exc}')
     elif a_once != 'ok':
         ctx.violate(case, f'{classify_order(r.fired, r.dispatched)}({mode})',
-                    f'fired {r.fired} but dispatched {r.dispatched}')
+                    f'fired {r.fired} but dispatched {r.dispatched}' + describe_directed(case, r))
     if r.thread_exc:
         ctx.violate(case, f'exception({mode})', f'a managed thread raised: {r.thread_exc}')
     return ok
@@ -744,20 +896,88 @@ class Batch:
         answers = self.ctx.driver.batch('wake', [ops_of(r) for _c, r, _n in self.items])
         for (case, r, nt), ans in zip(self.items, answers):
             ok = judge(self.ctx, case, r, ans)
-            self.ctx.case(case, nontrivial=nt, validated=ok)
+            self.ctx.case(case, nontrivial=nt, validated=ok and r.accept)
+            if not r.accept:
+                self.ctx.count('judged_by_spec_only', r.mode)
             self.ctx.count('mode', r.mode)
             self.ctx.count('plan', '+'.join(map(str, r.plan)))
-            self.ctx.count('preemptions', len(case['dev']))
+            self.ctx.count('preemptions', len(r.applied))
             self.ctx.count('effects_per_run', (len(r.labels) // 50) * 50)
-            for _t, lab, _s in r.labels:
+            for _t, lab, _s in (r.labels if r.accept else []):
                 self.ctx.count('effect', lab.split(' ')[0])
-            self.ctx.extra['effects_replayed'] = self.ctx.extra.get('effects_replayed', 0) + len(r.labels)
+            if r.accept:
+                self.ctx.extra['effects_replayed'] = self.ctx.extra.get('effects_replayed', 0) + len(r.labels)
             self.ctx.extra['scheduling_points'] = self.ctx.extra.get('scheduling_points', 0) + r.steps
         self.items = []
 
 
 def do_case(px, case):
+    if case.get('scn'):
+        return run_one(px, case['mode'], case['plan'], scn=case['scn'])     # the schedule is derived from 'scn'
     return run_one(px, case['mode'], case['plan'], case['dev'])
+
+
+DIRECTED_SCN = (('tick', 1), ('tick', 2), ('handler', 1))
+
+
+def directed_family(ctx, px, batch):
+    """the loop thread parked at every line of its own `_EventQueue.append` in turn, while a firer fires k events;
+    then the loop thread completes the append and the firer fires d more (see the module docstring).
+    Runs completely in both tiers (not subject to the exploration deadline)."""
+    ks, ds = ((2, 3), (1, 2)) if ctx.tier == 'quick' else ((2, 3, 4), (1, 2, 3))
+    groups = {}
+    for mode in MODES:
+        for kind, occ in DIRECTED_SCN:
+            # ('tick', 1): the first tick (queue busy), one firer.  Otherwise firer 1 fires the single event that
+            # wakes the idle loop (and whose handler fires, kind 'handler'); the last firer does the burst.
+            lead = [] if (kind, occ) == ('tick', 1) else [1]
+            g = f'{kind}{occ}/{mode}'
+            probe = {'mode': mode, 'plan': lead + [ks[0] + ds[0]], 'dev': [],
+                     'scn': {'kind': kind, 'occ': occ, 'point': None, 'k': ks[0]}}
+            r = do_case(px, probe)
+            batch.add(probe, r, nontrivial=False)
+            points = r.directed['points']
+            groups[g] = [len(points), 0, 0]
+            for j, at in enumerate(points):
+                for k in ks:
+                    for d in ds:
+                        case = {'mode': mode, 'plan': lead + [k + d], 'dev': [],
+                                'scn': {'kind': kind, 'occ': occ, 'point': j, 'k': k}}
+                        r = do_case(px, case)
+                        batch.add(case, r)
+                        groups[g][1] += 1
+                        reached = r.directed['reached']
+                        groups[g][2] += 1 if reached else 0
+                        ctx.count('directed_schedules', g + ('/reached' if reached else '/not-reached'))
+                        ctx.count('directed_park_point', f'{kind}:{at}')
+                        ctx.count('directed_burst', f'k={k},d={d}')
+    ctx.extra['directed_family'] = {g: {'park_points': v[0], 'schedules': v[1], 'reached': v[2]}
+                                    for g, v in groups.items()}
+    return groups
+
+
+def counter_rmw_facts(px):
+    """measured, informational: which byte-code instructions lie between a read and the following write of
+    `_counter` inside `_EventQueue.append` (or a private helper it calls), and whether one of them is an
+    instruction at which CPython (>= 3.10, with the GIL) may switch threads (calls, backward jumps, function
+    entry)"""
+    import dis
+    res = []
+    for code in [px.append_code] + list(px.helper_codes):
+        ins = [i for i in dis.get_instructions(code) if i.opname != 'CACHE']
+        start = None
+        for n, i in enumerate(ins):
+            if i.opname.startswith('LOAD_ATTR') and i.argval == '_counter' and start is None:
+                start = n
+            elif i.opname.startswith('STORE_ATTR') and i.argval == '_counter' and start is not None:
+                between = [x.opname for x in ins[start + 1:n]]
+                sw = [o for o in between
+                      if o.startswith(('CALL', 'JUMP_BACKWARD', 'RESUME', 'SEND', 'YIELD', 'FOR_ITER'))]
+                lines = sorted({x.positions.lineno for x in ins[start:n + 1] if x.positions and x.positions.lineno})
+                res.append({'function': code.co_name, 'between': between, 'switch_points': sw,
+                            'source_lines': len(lines)})
+                start = None
+    return res
 
 
 def children(r, after=-1):
@@ -852,12 +1072,21 @@ def check_params(ctx):
 
 def run(ctx):
     import time
-    ctx.rule = ('a case is (waiter kind, events per firer, schedule deviations); distinct = distinct case; '
+    ctx.rule = ('a case is (waiter kind, events per firer, schedule deviations) or, for the directed family, '
+                '(waiter kind, events per firer, directed-schedule descriptor scn: loop thread parked at a given '
+                'line of its own queue append while a firer fires k events); distinct = distinct case; '
                 'non-trivial = at least one pre-emption')
     ctx.trusted += [
         'atomicity granularity = one source line of the monitored functions (sys.monitoring LINE) plus each '
         'operation of the doubles; CPython executes deque.append/popleft/len, heappush/heappop and attribute '
         'stores atomically',
+        'in particular `self._counter += 1` in _EventQueue.append (one source line, executed by the loop thread '
+        'WITHOUT the lock) is atomic for the scheduler although it is a read-modify-write: a switch between its '
+        'LOAD_ATTR and STORE_ATTR would let the loop thread write a stale counter and break the per-thread order. '
+        'CPython >= 3.10 with the GIL switches threads only at calls, backward jumps and function entry, none of '
+        'which lies inside that statement (measured: extra.counter_rmw); CPython 3.8/3.9 (declared supported), '
+        'PyPy and free-threaded builds can switch inside it - schedules of that granularity are outside this '
+        'check (it runs on the interpreter of the sandbox, at source-line granularity)',
         'doubles for RLock, threading.Event, select/poll/epoll and the ctrl pipe behave like the real ones '
         '(level-triggered readiness, Event.set wakes every waiter)',
         'effect reporting by the traced subclasses (properties on generate_events._time_left/.handler, '
@@ -880,6 +1109,11 @@ def run(ctx):
         batch = Batch(ctx, px)
         for case in ctx.corpus():
             batch.add(case, do_case(px, case))
+        ctx.extra['counter_rmw'] = counter_rmw_facts(px)
+        td = time.time()
+        groups = directed_family(ctx, px, batch)
+        ctx.extra['directed_wall_s'] = round(time.time() - td, 1)
+        t0 += time.time() - td      # the exploration budget below is not shortened by the directed family
         if ctx.tier == 'quick' and not ctx.searching:
             explore(ctx, px, batch, 'fallback', [1], 500, 60, deadline_hit)
             explore(ctx, px, batch, 'select', [1], 400, 60, deadline_hit)
@@ -896,6 +1130,9 @@ def run(ctx):
                 explore(ctx, px, batch, mode, [2], 600, 200, deadline_hit)
             random_runs(ctx, px, batch, 20000, MODES, deadline_hit)
         batch.flush()
+    vacuous = [g for g, v in groups.items() if v[0] == 0 or v[2] == 0]
+    if vacuous and not ctx.violations:
+        raise Infra(f'directed family never reached the loop thread\'s own queue append for {vacuous}')
     ctx.extra['granularity'] = 'source line (sys.monitoring LINE) + double operations'
     ctx.extra['explore_wall_s'] = round(time.time() - t0, 1)
 
@@ -910,4 +1147,5 @@ def replay(ctx, case):
         ans = ctx.driver.batch('wake', [ops_of(r)])[0]
         judge(ctx, case, r, ans)
         print(f"replay: mode={case['mode']} plan={case['plan']} dev={case['dev']} applied={r.applied} "
-              f"fired={r.fired} dispatched={r.dispatched} end={r.end_obs}")
+              f"fired={r.fired} dispatched={r.dispatched} end={r.end_obs}"
+              + (f" scn={case['scn']} directed={r.directed}" if case.get('scn') else ''))
